@@ -240,7 +240,37 @@ TVHelper ==
      ELSE IF rej = "" /\ ~GeomOK(ev, a.m) THEN Bad("gen", "gradient geometry", a.m)
      ELSE UNCHANGED << srcLine, r, skip, nbad, njudged, nskipgeo, h0 >>
 
-TVSkip == Trace[l].ev \notin {"rsrc", "same"} /\ skip /\ UNCHANGED << srcLine, r, skip, nbad, njudged, nskipgeo, h0 >>
+(* far-out absolute points (round 10): a stateless judgement for coordinates whose image lies beyond what the  *)
+(* machine's 2^-16-pixel integers can hold.  Under an integer viewBox-to-pixel scale S the image of the absolute *)
+(* point k/64 is (k - min) * S / 64 exactly, a float32 while below 2^24 sixty-fourths: the code must return that *)
+(* very number however far outside the target rectangle it lies (C05: the mapping is affine everywhere).        *)
+FarJudge(ev) ==
+  LET g == Geo(ev.vb, ev.rect) IN
+  IF ~(g.ok /\ ~g.approx /\ g.sx % 1024 = 0 /\ g.sy % 1024 = 0 /\ Len(ev.pin) = Len(ev.out) /\ Len(ev.args) = 2 * Len(ev.pin)) THEN "hint"
+  ELSE IF \E i \in 1..Len(ev.pin) : \/ ev.args[2 * i - 1] # OfScaled(ev.pin[i][1], 6) \/ ev.args[2 * i] # OfScaled(ev.pin[i][2], 6)
+                                     \/ Abs((ev.pin[i][1] - g.mx) * (g.sx \div 1024)) >= 16777216
+                                     \/ Abs((ev.pin[i][2] - g.my) * (g.sy \div 1024)) >= 16777216 THEN "hint"
+  ELSE IF \A i \in 1..Len(ev.pin) :
+            LET wx == OfScaled((ev.pin[i][1] - g.mx) * (g.sx \div 1024), 6)
+                wy == OfScaled((ev.pin[i][2] - g.my) * (g.sy \div 1024), 6) IN
+            /\ (ev.out[i][1] = wx \/ (IsZero(wx) /\ IsZero(ev.out[i][1])))
+            /\ (ev.out[i][2] = wy \/ (IsZero(wy) /\ IsZero(ev.out[i][2])))
+       THEN "ok" ELSE "far-out absolute point is not the affine image"
+TVFar ==
+  /\ Trace[l].ev = "far"
+  /\ LET j == FarJudge(Trace[l]) IN
+     IF j = "ok" THEN /\ njudged' = njudged + 1 /\ UNCHANGED << srcLine, r, skip, nbad, nskipgeo, h0 >>
+     ELSE /\ PrintT(ToJson([diag |-> IF j = "hint" THEN "hint" ELSE "raster", what |-> j, line |-> l,
+                             id |-> Trace[srcLine].id, ev |-> Trace[l], want |-> "affine image"]))
+          /\ nbad' = nbad + 1 /\ UNCHANGED << srcLine, r, skip, njudged, nskipgeo, h0 >>
+
+(* a call that panicked inside the Renderer (the rasteriser behind it is a recorder): never allowed *)
+TVPanic ==
+  /\ Trace[l].ev = "panic" /\ ~skip
+  /\ Bad(IF Trace[l].call.op \in {"StartPath", "SetCReg", "SetNReg", "SetCSel", "SetNSel", "SetLOD", "Reset"} THEN "vm" ELSE "raster",
+         "panic in the Renderer", Trace[l].msg)
+
+TVSkip == Trace[l].ev \notin {"rsrc", "same", "far"} /\ skip /\ UNCHANGED << srcLine, r, skip, nbad, njudged, nskipgeo, h0 >>
 
 TVCall ==
   /\ Trace[l].ev = "call" /\ ~skip
@@ -269,7 +299,7 @@ TVCall ==
           /\ nskipgeo' = IF res.judge = "none" THEN nskipgeo + 1 ELSE nskipgeo
           /\ UNCHANGED << srcLine, skip, nbad, h0 >>
 
-Next == l <= Len(Trace) /\ l' = l + 1 /\ (TVSrc \/ TVSkip \/ TVCall \/ TVSet \/ TVMCall \/ TVRead \/ TVHStart \/ TVHelper \/ TVSame)
+Next == l <= Len(Trace) /\ l' = l + 1 /\ (TVSrc \/ TVSkip \/ TVCall \/ TVSet \/ TVMCall \/ TVRead \/ TVHStart \/ TVHelper \/ TVSame \/ TVFar \/ TVPanic)
 Spec == Init /\ [][Next]_vars
 Done == l = Len(Trace) + 1
 Report == Done => PrintT(ToJson([diag |-> "summary", lines |-> Len(Trace), nbad |-> nbad,
